@@ -17,7 +17,7 @@ Definition C06_full : Prop := forall (c : Cfg) (be : backend) (ops : list op),
   cfg_ok c -> Forall (op_ok_r c) ops ->
   c01_ok (trace (env_of c Strict be) init ops) = true /\ c15_ok (trace (env_of c Strict be) init ops) = true.
 
-Theorem c06_recovery_complete_partial : forall c, 0 < c_hdr c -> forall nfiles f disk next_id acc,
+Theorem c06_recovery_complete_partial : forall c, 0 < c_hdr c -> 0 < c_block c -> forall nfiles f disk next_id acc,
   Forall (dwf c) disk ->
   let '(acc', id') := scan_files c nfiles f disk next_id acc in
   rc_flag acc' = rc_flag acc /\
@@ -45,7 +45,7 @@ Example c06_witness_sealed_position_after_empty_block :
   = [ROk; ROk; ROk; REntry (out_of (e 0 5000)); ROk; RNum 2; REntry (out_of (e 1 2000)); REntry (out_of (e 2 2000)); RNone].
 Proof. vm_compute. reflexivity. Qed.
 
-Check c06_recovery_complete_partial : forall c, 0 < c_hdr c -> forall nfiles f disk next_id acc,
+Check c06_recovery_complete_partial : forall c, 0 < c_hdr c -> 0 < c_block c -> forall nfiles f disk next_id acc,
   Forall (dwf c) disk ->
   let '(acc', id') := scan_files c nfiles f disk next_id acc in
   rc_flag acc' = rc_flag acc /\
